@@ -152,7 +152,15 @@ class ShuffleContinuumSampler(AbstractContinuumSampler):
         except ValueError:
             return 1
         if self._pivot_type == 'int_pivot':
-            return int(np.random.uniform(segment.start, segment.end))
+            value = np.random.uniform(segment.start, segment.end)
+            pivot = int(value)
+            if not segment.start <= pivot <= segment.end:
+                # truncation must not move the pivot out of the chosen segment (into an exclusion zone)
+                for candidate in (int(np.floor(value)), int(np.ceil(value))):
+                    if segment.start <= candidate <= segment.end:
+                        pivot = candidate
+                        break
+            return pivot
         else:
             return np.random.uniform(segment.start, segment.end)
 
